@@ -425,6 +425,10 @@ def run_check(prop, tier, seed, replay=None):
             rep.harness_crash = traceback.format_exc()
             cases += batch
         judge_cases(prop, cases, rep)
+        pk = sys.modules.get("poke")
+        if pk is not None and pk.STATS["objects"]:
+            # rejected assignments through public setters of live objects (harness/poke.py): how many this run made
+            rep.notes["rejected_assignments_on_live_objects"] = dict(pk.STATS)
         lines, code = decide(prop, rep)
         write_evidence(prop, rep, code)
         for ln in lines:
